@@ -483,3 +483,47 @@ func briefTaints(n *v1.Node) []string {
 	}
 	return out
 }
+
+
+// SituationKey is a canonical digest of what a scan saw and did, per group: configuration
+// numbers, every node's class / taint-age bucket / occupancy / protection, exact utilisation
+// totals, lock state and the actions taken. Two scans with the same key are the same case
+// as far as any monitor can tell; it is used to count distinct non-trivial cases.
+func (rec *ScanRecord) SituationKey(w *World) string {
+	var b strings.Builder
+	fmt.Fprintf(&b, "r=%v|s=%v|f=%d;", rec.Restarted, rec.Synced, rec.FaultHits)
+	for g, gr := range rec.Groups {
+		o := &w.Cfg.Groups[g].Opts
+		fmt.Fprintf(&b, "g%d:%v/%d/%d/%d/%d/%d/%d/%d/%s/%s/%s/L%v/P%v;", g, gr.Dry, gr.EffMin, gr.EffMax, o.TaintLowerCapacityThresholdPercent, o.TaintUpperCapacityThresholdPercent,
+			o.ScaleUpThresholdPercent, o.SlowNodeRemovalRate, o.FastNodeRemovalRate, o.SoftDeleteGracePeriod, o.HardDeleteGracePeriod, o.ScaleUpCoolDownPeriod, gr.Locked, gr.Processed)
+		var nodes []string
+		for _, n := range gr.GV.Nodes {
+			age := "-"
+			if ts, ok := ref.TaintTime(n); ok {
+				d := gr.Start.Sub(ts)
+				soft, hard := o.SoftDeleteGracePeriodDuration(), o.HardDeleteGracePeriodDuration()
+				switch {
+				case d < 0:
+					age = "f"
+				case d < soft:
+					age = "y"
+				case d == soft:
+					age = "s="
+				case d < hard:
+					age = "m"
+				case d == hard:
+					age = "h="
+				default:
+					age = "o"
+				}
+			} else if _, has := ref.HasTaint(n, ref.TaintKey); has {
+				age = "?"
+			}
+			nodes = append(nodes, fmt.Sprintf("%s%s%d%v", ref.Classify(n).String()[:1], age, minInt(len(gr.GV.PodsOn(n.Name)), 2), ref.NoDelete(n)))
+		}
+		sort.Strings(nodes)
+		fmt.Fprintf(&b, "%v|%v/%v/%v/%v|", nodes, gr.GV.ReqCPU, gr.GV.CapCPU, gr.GV.ReqMem, gr.GV.CapMem)
+		fmt.Fprintf(&b, "t%d,u%d,x%d,d%d,i%d,F%d;", len(gr.TaintedNow()), len(gr.UntaintedNow()), len(gr.TermOK), len(gr.Deleted), len(gr.Increase), len(gr.Failed))
+	}
+	return b.String()
+}
